@@ -456,7 +456,7 @@ def rule_e(ctx):
             binds = [s for s in cur.body if isinstance(s, ast.Assign) and norm(s.targets[0]) == flag]
             exprs = [s for s in cur.body if isinstance(s, ast.Expr) and isinstance(s.value, ast.Compare)]
             ctx.ob(R, f.qname, f"arm {lit}: binds {flag}", len(binds) == 1 and not exprs,
-                   f"statements: {[norm(s) for s in cur.body]} -- a comparison used as a statement leaves {flag} at its default", cur)
+                   f"statements: {[norm(s) for s in cur.body]} -- a comparison used as a statement leaves {flag} at its default", cur, evidence=bool(exprs))
             if len(cur.orelse) == 1 and isinstance(cur.orelse[0], ast.If):
                 cur = cur.orelse[0]
                 continue
